@@ -163,6 +163,7 @@ def run(run, tier):
     # 3. binary64 residue search (outside the exact model)
     tried, hits = residue_search(EoN, sim, tier)
     residue = report_residue(run, tried, hits)
+    C.extra_props(run, 'C15', props, ['C15x'])
     if not props['ok']:
         run.violation('C15/proof', 'Props/C15.v no longer checks: %s' % props['log'][-400:], {'broken': 'coq/Props/C15.v', 'log': props['log']}, no_input=True)
     dist = dict(res.stats)
